@@ -186,6 +186,9 @@ pub struct Stats {
     pub spin_yields: u64,
     /// A worker descheduled for a drawn number of steps at a rarely executed site.
     pub rare_site_suspensions: u64,
+    /// Atomic operations of the instrumented library at which the scheduler looked / preempted.
+    pub atomic_yields: u64,
+    pub preempt_atomic: u64,
 }
 
 impl Stats {
@@ -230,6 +233,8 @@ impl Stats {
         self.fairness_switches += o.fairness_switches;
         self.spin_yields += o.spin_yields;
         self.rare_site_suspensions += o.rare_site_suspensions;
+        self.atomic_yields += o.atomic_yields;
+        self.preempt_atomic += o.preempt_atomic;
     }
 }
 
@@ -263,6 +268,10 @@ pub enum YieldKind {
     Sleep,
     /// `thread::yield_now` (a spin loop being polite): somebody else runs if anybody can.
     SpinYield,
+    /// An atomic operation of the instrumented library is about to happen (`bbguard::tsan`):
+    /// where lock-free code communicates. Treated like a job boundary, and the preferred place
+    /// for descheduling a thread.
+    Atomic,
 }
 
 // ---------------------------------------------------------------------------
@@ -672,7 +681,7 @@ impl Inner {
         let mut n = 0;
         for (i, w) in self.pools[self.active].workers.iter().enumerate() {
             let k = if i == me { Some(me_kind) } else { w.parked_at };
-            if matches!(k, Some(YieldKind::Hook | YieldKind::Bb | YieldKind::BbRare | YieldKind::Blocked)) {
+            if matches!(k, Some(YieldKind::Hook | YieldKind::Bb | YieldKind::BbRare | YieldKind::Blocked | YieldKind::Atomic)) {
                 n += 1;
             }
         }
@@ -942,6 +951,7 @@ impl Sim {
             YieldKind::Hook => g.stats.hook_yields += 1,
             YieldKind::Bb => g.stats.bb_yields += 1,
             YieldKind::BbRare => g.stats.bb_rare_yields += 1,
+            YieldKind::Atomic => g.stats.atomic_yields += 1,
             _ => {}
         }
         let forced = matches!(kind, YieldKind::Wait | YieldKind::Idle | YieldKind::Blocked);
@@ -954,6 +964,7 @@ impl Sim {
                 | YieldKind::Shared
                 | YieldKind::BbRare
                 | YieldKind::Sleep
+                | YieldKind::Atomic
         );
         g.policy.step += 1;
         // clock seam: time passes at scheduling points, by the plan of this operation
@@ -978,7 +989,7 @@ impl Sim {
             if kind == YieldKind::Hook && !g.cfg.preempt_hooks {
                 return;
             }
-            if matches!(kind, YieldKind::Bb | YieldKind::BbRare) && !g.cfg.preempt_bb {
+            if matches!(kind, YieldKind::Bb | YieldKind::BbRare | YieldKind::Atomic) && !g.cfg.preempt_bb {
                 return;
             }
             if k <= 1 {
@@ -990,8 +1001,8 @@ impl Sim {
         // thread is descheduled right there for 32 .. 16384 scheduler steps (whatever the mode); how often
         // is drawn per operation (one rare site in 2 .. 128).
         let mut suspended_to: Option<usize> = None;
-        let ssh = g.policy.susp_shift;
-        if kind == YieldKind::BbRare && g.choose(1 << ssh) == 0 {
+        let ssh = if kind == YieldKind::Atomic { g.policy.susp_shift.min(2) } else { g.policy.susp_shift };
+        if matches!(kind, YieldKind::BbRare | YieldKind::Atomic) && g.choose(1 << ssh) == 0 {
             let others: Vec<usize> = g.runnable_set().into_iter().filter(|&t| t != me && t != DRIVER).collect();
             if !others.is_empty() {
                 let e = 5 + g.choose(10);
@@ -1097,7 +1108,8 @@ impl Sim {
                     // priority-change points: the drawn steps, and - one time in three - a rarely
                     // executed site (the place where a narrow window is, if there is one)
                     let sh = g.policy.rare_shift;
-                    let at_rare_site = kind == YieldKind::BbRare && g.choose(1 << sh) == 0;
+                    let sh = if kind == YieldKind::Atomic { sh.min(2) } else { sh };
+                    let at_rare_site = matches!(kind, YieldKind::BbRare | YieldKind::Atomic) && g.choose(1 << sh) == 0;
                     if g.policy.pct_points.contains(&step) || at_rare_site {
                         g.policy.pct_low -= 1;
                         let low = g.policy.pct_low;
@@ -1116,7 +1128,8 @@ impl Sim {
                     // the stall begins at the drawn step of the drawn victim, or - one time in three - for
                     // whoever reaches a rarely executed site first
                     let sh = g.policy.rare_shift;
-                    if kind == YieldKind::BbRare && !g.policy.stall_done && !g.policy.stalled && g.choose(1 << sh) == 0 {
+                    let sh = if kind == YieldKind::Atomic { sh.min(2) } else { sh };
+                    if matches!(kind, YieldKind::BbRare | YieldKind::Atomic) && !g.policy.stall_done && !g.policy.stalled && g.choose(1 << sh) == 0 {
                         g.policy.stall_victim = me;
                         g.policy.stall_at = 0;
                     }
@@ -1125,7 +1138,7 @@ impl Sim {
                         && !p.stalled
                         && me == p.stall_victim
                         && p.step >= p.stall_at
-                        && matches!(kind, YieldKind::Item | YieldKind::Hook | YieldKind::Bb | YieldKind::BbRare)
+                        && matches!(kind, YieldKind::Item | YieldKind::Hook | YieldKind::Bb | YieldKind::BbRare | YieldKind::Atomic)
                     {
                         let others: Vec<usize> =
                             g.runnable_set().into_iter().filter(|&t| t != me && t != DRIVER).collect();
@@ -1183,6 +1196,7 @@ impl Sim {
             YieldKind::JoinPush => g.stats.preempt_join += 1,
             YieldKind::Bb => g.stats.preempt_bb += 1,
             YieldKind::BbRare => g.stats.preempt_bb_rare += 1,
+            YieldKind::Atomic => g.stats.preempt_atomic += 1,
             _ => {}
         }
         let inf = g.in_flight(me, kind);
@@ -1660,7 +1674,9 @@ fn bb_callback(kind: u32) {
         }
     };
     flush_hooks_passed(&sim);
-    if kind == bbguard::KIND_RARE_SITE {
+    if kind == bbguard::KIND_ATOMIC {
+        sim.yield_point(me, YieldKind::Atomic);
+    } else if kind == bbguard::KIND_RARE_SITE {
         sim.yield_point(me, YieldKind::BbRare);
     } else {
         sim.yield_point(me, YieldKind::Bb);
